@@ -95,7 +95,7 @@ def run(ctx):
     # signcryption W input and time-lock sides (from C11 / C13)
     from . import c11, c13
 
-    sub = _Sub(ctx, ("E5.w", "E5.seal", "E3.sides", "E5.equation", "E5.equation.anchor", "E5.keystream", "E5.frame", "E3.frame"))
+    sub = _Sub(ctx, ("E5.w", "E5.seal", "E3.sides", "E3.signer", "E5.equation", "E5.equation.anchor", "E5.keystream", "E5.frame", "E3.frame"))
     c11.run(sub)
     c13.run(sub)
     # ElGamal transcript + generator (from C14)
